@@ -251,7 +251,7 @@ fn inspect(o: &mut Obs, r: &[u8], q: &[u8]) {
 }
 
 /// `e2e wait=<ms> q=<fam>:<proto>:<edns|->:<script>,…` — fam: 4 (127.0.0.1:5300) 6 ([::1]:5300) d4 (127.0.0.1:5301, dual-stack
-/// listener) d6 ([::1]:5301); proto u|t.  All queries are sent at once, each from its own socket.
+/// listener) d6 ([::1]:5301); proto u|t|j (j: a UDP query sent right behind two unparseable datagrams).  All queries are sent at once, each from its own socket.
 pub fn run(toks: &[&str]) -> String {
     start();
     let first = batch(toks, kv(toks, "q"));
@@ -287,8 +287,14 @@ fn batch(toks: &[&str], specs: &str) -> String {
             let q = query(0x1000 + i as u16, &[&f[3], &uniq, "test"], edns);
             let mut o = Obs { count: 0, rcode: 255, own: "none", src_ok: true, len: 0, tc: false, ms: 0, idq_ok: true };
             let t0 = Instant::now();
-            if f[1] == "u" {
+            if f[1] == "u" || f[1] == "j" {
                 let s = UdpSocket::bind(if dst.is_ipv4() { "127.0.0.1:0" } else { "[::1]:0" }).expect("harness: client socket");
+                if f[1] == "j" {
+                    // datagrams no reply is owed to, queued in front of the query: a short one, and a header that
+                    // announces a question which is not there
+                    s.send_to(&[0xff, 0x00, 0x01], dst).expect("harness: send");
+                    s.send_to(&[0x12, 0x34, 0x01, 0x00, 0x00, 0x01, 0, 0, 0, 0, 0, 0], dst).expect("harness: send");
+                }
                 s.send_to(&q, dst).expect("harness: send");
                 let mut buf = [0u8; 65536];
                 let mut deadline = t0 + wait;
